@@ -736,6 +736,31 @@ fn go_histories(rep: &Report, thorough: bool) -> (J, u64, u64) {
             }
         }
     }
+    // a long think after a search that saw the world very differently: the first search ends with
+    // a score far above or below what the second will find (a queen up, a queen down, a forced
+    // mate), the second has a budget in which several iterations complete (depth 4-6): whatever the
+    // engine remembers of the first (an expected score, a best move that is no longer there) must
+    // not stretch the second beyond its budget
+    let contrast_first: [(&str, &str); 5] = [
+        ("white a queen up", "position fen rnb1kbnr/pppp1ppp/8/4p3/4P3/8/PPPP1PPP/RNBQKBNR w KQkq - 0 3"),
+        ("white a queen down", "position fen rnbqkbnr/pppp1ppp/8/4p3/4P3/8/PPPP1PPP/RNB1KBNR w KQkq - 0 3"),
+        ("white mates in two", "position fen 6k1/5ppp/8/8/8/8/5PPP/1R1R2K1 w - - 0 1"),
+        ("black a rook up", "position fen rnbqkbnr/pppppppp/8/8/8/8/PPPPPPPP/1NBQKBNR b Kkq - 0 1"),
+        ("start position", "position startpos"),
+    ];
+    let contrast_second: [&str; 3] = ["position startpos moves e2e4 e7e5", "position fen r1bq1rk1/ppp2ppp/2np1n2/2b1p3/2B1P3/2PP1N2/PP3PPP/RNBQ1RK1 w - - 0 7", "position fen 8/5pk1/6p1/R7/5P2/6P1/r4K2/8 w - - 0 40"];
+    let contrast_go: [(&str, Option<u64>); 3] = [("go movetime 8000", Some(8000)), ("go movetime 20000", Some(20000)), ("go wtime 300000 btime 300000 winc 0 binc 0", None)];
+    let before_contrast = hs.len();
+    for (_, pa) in contrast_first {
+        for first in ["go depth 4", "go depth 5", "go movetime 3000"] {
+            for pb in contrast_second {
+                for (g, b) in contrast_go {
+                    hs.push(vec![(pa.to_string(), None), (first.to_string(), None), (pb.to_string(), None), (g.to_string(), Some(b))]);
+                }
+            }
+        }
+    }
+    let contrast = hs.len() - before_contrast;
     let results: Vec<(u64, u64, u64)> = par_map(&hs, |h| go_history(rep, h));
     let judged: u64 = results.iter().map(|r| r.0).sum();
     let hits: u64 = results.iter().map(|r| r.1).sum();
@@ -744,6 +769,7 @@ fn go_histories(rep: &Report, thorough: bool) -> (J, u64, u64) {
     let part = J::obj()
         .set("histories", hs.len())
         .set("single_command_histories", singles)
+        .set("long_think_after_a_search_with_a_very_different_score", contrast)
         .set("budgeted_go_commands_judged", judged)
         .set("deadline_fell_inside_search", hits)
         .set("max_nodes_after_deadline", worst)
